@@ -123,7 +123,18 @@ func Episode(r *rng.R, k int) []string {
 	ops = append(ops, "start "+pickDraw(r, tox))
 	n := 4 + r.Intn(28)
 	eos := false
+	// a third of the episodes restart the toxic often (updates of this toxic and add/remove
+	// of a neighbour both interrupt and restart it): several restarts between chunks
+	restartHeavy := r.Chance(1, 3)
 	for i := 0; i < n; i++ {
+		if restartHeavy && r.Chance(1, 4) {
+			ops = append(ops, "intr", "adv 0")
+			if r.Chance(1, 4) {
+				b1, b2, b3 := c.gen(r)
+				ops = append(ops, fmt.Sprintf("upd %s %d %d %d tox %s", c.ty, b1, b2, b3, tox))
+			}
+			ops = append(ops, "start "+pickDraw(r, tox))
+		}
 		switch x := r.Intn(20); {
 		case x < 7 && !eos:
 			sz := sizes(r, c.ty, a1, a2)
